@@ -10,6 +10,9 @@ import Otel.C06.RecHeap
 import Otel.C06.Live
 import Otel.C06.Hold
 import Otel.C06.Mutex
+import Otel.C06.Term
+import Otel.C06.TermFF
+import Otel.C06.Props
 namespace Otel.C06
 
 /-! ## the ring queue -/
@@ -131,6 +134,24 @@ theorem blrp_chain_unwrapped (timeout : Nat) (c : Chain.Ctx) (now : Nat) (bs : L
         · simp [Chain.oneCall, Chain.withTimeout]
         · exact ih _ _ _ call hc
 
+/-- the order of the wrappers — what `NewBatchProcessor` composes (timeout around the user exporter, the chunker around
+that, the buffer outermost; `Chain.bpChain`, combinators mirroring the three `Export` methods) makes exactly the
+calls of `chainExport` (the function the other chain theorems are about) and returns at the same time; the other
+order (one `WithTimeout` around the whole chunk loop, `Chain.swappedChain`) does NOT: with a user exporter that blocks
+on the first chunk until its deadline, the second chunk is handed an already expired context. Tied to the code by
+the `chain bp…` lines (chain taken out of a real BatchProcessor) and the listing `blrp-ctor-chain`. -/
+theorem blrp_wrapper_order (size t : Nat) (hpos : 1 ≤ size) (c : Chain.Ctx) (now : Nat) (bs : List Chain.Beh)
+    (l : List Nat) :
+    (Chain.bpChain size t c now bs l).1 = (Chain.chainExport size t c now bs l).1 ∧
+    (Chain.bpChain size t c now bs l).2.1 = (Chain.chainExport size t c now bs l).2 ∧
+    ((Chain.swappedChain 2 10 {} 0 [.wait, .ok] [1, 2, 3, 4]).1.map (·.expired) = [false, true] ∧
+     (Chain.chainExport 2 10 {} 0 [.wait, .ok] [1, 2, 3, 4]).1.map (·.expired) = [false, false]) := by
+  have hne : size ≠ 0 := by omega
+  have h := Chain.chunkVia_bp size t c l.length now bs l
+  refine ⟨?_, ?_, by decide⟩
+  · simp only [Chain.bpChain, Chain.chainExport, hne, if_false]; exact h.1
+  · simp only [Chain.bpChain, Chain.chainExport, hne, if_false]; exact h.2
+
 /-- non-vacuity: 5 records, size 2, timeout 10, the first call blocks until its deadline, the second fails: three
 calls, the later ones start at 10 with deadline 20 and are not expired -/
 example : Chain.chainExport 2 10 {} 0 [.wait, .err, .ok] [1, 2, 3, 4, 5] =
@@ -235,6 +256,117 @@ example : ∃ s, run (init 4 1 1) [.accept 1, .enq 1, .pTrig, .eRecv, .eStart, .
       .ffCall 1, .ffCheck 1, .ffDequeue 1, .ffLock 1] = some s ∧ s.imu = some (.ff 1) ∧ s.input.length = 1 := by
   refine ⟨_, rfl, ?_⟩
   decide
+
+/-- Shutdown returns — from every reachable state (batch, buffer size ≥ 1) in which a Shutdown call has won
+`stopped.Swap` and not yet returned, a finite run of SYSTEM steps only reaches the state in which it has returned
+(`sd = done`): the poll goroutine's exit after `close(pollKill)` (H4), steps of exportSync including the returns of
+the user exporter's Export (H1, H2), the release of inputMu by a ForceFlush that holds it (H3), Shutdown's own steps
+(H6: kill, wait for pollDone, Flush, enqueue the synchronous request — which is then in the buffer or in progress
+until it is answered —, wait for the answer, stop and close the buffer, wait for `done`) and the return of the user
+exporter's Shutdown (H5). No step of an emitter, of another ForceFlush / Shutdown caller or of the ticker is needed;
+by `blrp_exportsync_not_disabled` none of them disables exportSync. So under weak fairness for these goroutines the
+Shutdown call returns: no deadlock. (Shutdown's own context expiring is not modelled: that only makes it return
+earlier, with an error.) -/
+theorem blrp_shutdown_returns {cap batch buf : Nat} (s : St) (h : Reachable cap batch buf s) (hb : 1 ≤ batch)
+    (hbuf : 1 ≤ buf) (hsd : s.sd ≠ .none) :
+    ∃ ls s', (∀ l ∈ ls, Sys l) ∧ run s ls = some s' ∧ Reachable cap batch buf s' ∧ s'.sd = .done := by
+  obtain ⟨ls, s', h1, h2, h3⟩ := shutdown_returns (10 - rank s.sd) s h hb hbuf hsd (Nat.le_refl _)
+  exact ⟨ls, s', h1, h2, run_reachable s ls s' h h2, h3⟩
+
+/-- the invariants behind it: while a Shutdown is past `close(pollKill)` the channel is closed; while it is in
+progress a caller in phase `main` exists (the one that will return); while it waits for the answer to its
+synchronous request, that request is in the export buffer or is the one exportSync is working on. -/
+theorem blrp_shutdown_request_position {cap batch buf : Nat} (s : St) (h : Reachable cap batch buf s) :
+    ((s.sd ≠ .none ∧ s.sd ≠ .swapped) → s.killed = true) ∧
+    ((s.sd ≠ .none ∧ s.sd ≠ .done) → ∃ k, hasC k .main s.sds = true) ∧
+    (s.sd = .waitResp →
+      (∃ l, Req.recs l true ∈ s.input) ∨ (s.curSync = true ∧ (s.eph = .have ∨ s.eph = .busy))) :=
+  let i := invL_reachable cap batch buf s h
+  ⟨i.killed, i.main, i.sync⟩
+
+/-- ForceFlush returns — from every reachable state (batch, buffer size ≥ 1), for every ForceFlush call that has not
+yet returned, a finite run of system steps (as in `blrp_shutdown_returns`) and of the call's own steps (H7: the caller
+is scheduled; H8: the user exporter's ForceFlush returns) ends with that call returned: inputMu gets released, exportSync
+makes room in the export buffer so that the call's `TryDequeue` hands its records over (or finds the buffer exporter
+stopped), the marker gets room, is received and answered (`InvW`: while the call waits its marker is in the buffer; an
+exited exportSync leaves nothing behind). In the constructed run the poll loop does not run between "room" and the
+call's dequeue; on infinite runs with endless emits this needs strong fairness for the call's dequeue (weak fairness is
+enough when emits are finite). -/
+theorem blrp_forceflush_returns {cap batch buf : Nat} (s : St) (h : Reachable cap batch buf s) (hb : 1 ≤ batch)
+    (hbuf : 1 ≤ buf) (f : FF) (hf : f ∈ s.ffs) :
+    ∃ ls s', (∀ l ∈ ls, SysF f.fid l) ∧ run s ls = some s' ∧ Reachable cap batch buf s' ∧
+      ∃ f' ∈ s'.ffs, f'.fid = f.fid ∧
+        (f'.ph = .retOk ∨ f'.ph = .retEarly ∨ f'.ph = .retEarlyBuf ∨ f'.ph = .retErr) := by
+  have hph : hasPh f.fid f.ph s.ffs = true := by
+    simp only [hasPh, List.any_eq_true, decide_eq_true_eq]
+    exact ⟨f, hf, rfl, rfl⟩
+  obtain ⟨ls, s', p', h1, h2, h3, h4⟩ := forceflush_returns f.fid (6 - rankF f.ph) s f.ph h hb hbuf hph (Nat.le_refl _)
+  obtain ⟨f', hf', hfid, hp⟩ := hasPh_exists f.fid p' s'.ffs h3
+  refine ⟨ls, s', h1, h2, run_reachable s ls s' h h2, f', hf', hfid, ?_⟩
+  rw [hp]
+  cases p' <;> simp [rankF] at h4 ⊢
+
+/-- non-vacuity: a Shutdown has won the swap while a ForceFlush holds inputMu with its marker blocked on the full
+buffer behind a running export -/
+example : ∃ s, run (init 4 1 1) [.accept 1, .enq 1, .pTrig, .eRecv, .eStart, .accept 2, .enq 2, .pTrig,
+      .ffCall 1, .ffCheck 1, .ffDequeue 1, .ffLock 1, .sdCall 1, .sdSwap 1] = some s ∧ s.sd = .swapped ∧
+      s.imu = some (.ff 1) ∧ s.eph = .busy ∧ rank s.sd = 1 := by
+  refine ⟨_, rfl, ?_⟩
+  decide
+
+/-! ## the known-finding classifications are tight -/
+
+/-- F22 is tight — if a ForceFlush has returned nil and a record whose Emit had returned before the call is neither
+in the exporter's log nor overwritten-and-counted (or, in the oracle's vocabulary, `Spec.delivered` fails for its
+`pre` set against the dropped counter), then that ForceFlush returned after a Shutdown had set `stopped`
+(`F22_applies`); no other interleaving loses or delays a record at a nil ForceFlush return. -/
+theorem blrp_forceflush_missing_implies_f22 {cap batch buf : Nat} (s : St) (h : Reachable cap batch buf s) (f : FF)
+    (hf : f ∈ s.ffs) (hret : f.ph = .retOk ∨ f.ph = .retEarly ∨ f.ph = .retEarlyBuf) :
+    ((∃ id ∈ f.pre, ¬ (id ∈ s.exported.flatten ∨ id ∈ s.droppedIds)) → F22_applies f = true) ∧
+    (Spec.delivered f.pre s.exported (s.dropCtr + s.warned) = false → F22_applies f = true) := by
+  constructor
+  · intro ⟨id, hid, hmiss⟩
+    cases hF : F22_applies f with
+    | true => rfl
+    | false => exact absurd ((blrp_delivers_partial s h f hf hret hF).1 id hid) hmiss
+  · intro hnd
+    cases hF : F22_applies f with
+    | true => rfl
+    | false =>
+      have := (blrp_delivers_partial s h f hf hret hF).2
+      rw [hnd] at this; cases this
+
+/-- F22 only makes ForceFlush return EARLY, it loses nothing the Shutdown is responsible for — once the Shutdown that
+performed the shutdown has returned nil, every record of the ForceFlush's `pre` set whose Emit had returned when
+`stopped` was set has been exported or overwritten-and-counted, whichever way the ForceFlush returned. (The others —
+Emits that overlapped the start of the Shutdown — are the subject of the assumption on linearization.) -/
+theorem blrp_f22_only_early {cap batch buf : Nat} (s : St) (h : Reachable cap batch buf s) (hret : s.sdRetOk = true)
+    (f : FF) (_hf : f ∈ s.ffs) : ∀ id ∈ f.pre, id ∈ s.sdPre → id ∈ s.exported.flatten ∨ id ∈ s.droppedIds :=
+  fun id _ hp => (blrp_shutdown_delivers s h hret).1 id hp
+
+/-- F37 is tight — if in some reachable state the exported order of some goroutine's records differs from its
+emission order (for any assignment `gOf` of records to goroutines), then a dequeue has overtaken Shutdown's
+Flush-then-Export pair (`F37_applies`: records were handed to the export buffer while Shutdown held the flushed
+slice). No other interleaving reorders records. -/
+theorem blrp_order_violation_implies_f37 {cap batch buf : Nat} (gOf : Nat → Nat) (s : St) (h : Reachable cap batch buf s)
+    (hbad : Spec.fifoOK gOf s.enqd s.exported.flatten = false) : F37_applies s = true := by
+  cases hF : F37_applies s with
+  | true => rfl
+  | false =>
+    have := (blrp_fifo_partial gOf s h hF).2
+    rw [hbad] at this; cases this
+
+/-- F37 needs a Shutdown — as long as no Shutdown has set the `stopped` flag, nothing is overtaken: the order clause
+holds unconditionally before the first Shutdown call (for every emitter / ForceFlush / poll interleaving). -/
+theorem blrp_fifo_before_shutdown {cap batch buf : Nat} (gOf : Nat → Nat) (s : St) (h : Reachable cap batch buf s)
+    (hns : s.stopped = false) : Spec.fifoOK gOf s.enqd s.exported.flatten = true := by
+  have hno : F37_applies s = false := by
+    cases ho : s.overtaken with
+    | false => simp [F37_applies, ho]
+    | true =>
+      have := overtaken_reachable cap batch buf s h ho
+      rw [hns] at this; cases this
+  exact (blrp_fifo_partial gOf s h hno).2
 
 /-! ## progress of exportSync under fairness -/
 
